@@ -36,6 +36,8 @@ from vlib.core import Report, Violation
 
 warnings.filterwarnings("ignore")
 
+MAX_UNCLASSIFIED_WITNESSES = 40  # replay files written for unclassified failures per run (all failures are counted in the evidence)
+
 FUNCTIONS_UNDER_CONTRACT = [
     {"function": "data_algebra.data_schema.SchemaRaises.__call__ (wrapped_fn)", "contract": "raises TypeError iff expected_violation(spec, call); else returns the wrapped function's own object"},
     {"function": "data_algebra.data_schema.SchemaRaises.check_args / check_return / _check_spec / _check_data_frame_matches_schema", "contract": "reached through wrapped_fn"},
@@ -517,6 +519,7 @@ def _short(case: Dict[str, Any]) -> str:
 
 def bounded(rep: Report, tier: str, seed: int) -> None:
     per_key: Dict[str, int] = {}
+    n_unclassified = 0
     groups: Dict[str, int] = {}
     outcomes = {"expected-raise": 0, "expected-return": 0}
     seen = set()
@@ -538,7 +541,9 @@ def bounded(rep: Report, tier: str, seed: int) -> None:
         if msg:
             key = classify(case, obs)
             per_key[key] = per_key.get(key, 0) + 1
-            if per_key[key] <= 2:
+            n_unclassified += ":unclassified:" in key
+            # every failing case is counted (rep.extra); at most 2 witnesses per classified key and MAX_UNCLASSIFIED_WITNESSES unclassified ones are stored
+            if per_key[key] <= 2 and not (":unclassified:" in key and n_unclassified > MAX_UNCLASSIFIED_WITNESSES):
                 rep.violations.append(Violation(key=key, what="%s: %s" % (_short(case), msg), replay={"module": "cbc.c22", "case": case}))
     rep.extra["c22_cases_by_group"] = groups
     rep.extra["c22_expected_outcomes"] = outcomes
